@@ -167,7 +167,11 @@ func vfCheckBox3(s SDF3, who string) { vfCheckBox3L(s, who, nil) }
 // as its own obligation and then assumed) and return the facts from which the
 // containment assertions are then proved (nil: the whole path condition).
 func vfCheckBox3L(s SDF3, who string, lemmas func(p v3.Vec, d float64, in bool) []bool) {
-	p := vfPoint3("p")
+	vfCheckBox3P(s, who, vfPoint3("p"), lemmas)
+}
+
+// vfCheckBox3P: the same for a query point supplied by the harness (e.g. with a concrete z)
+func vfCheckBox3P(s SDF3, who string, p v3.Vec, lemmas func(p v3.Vec, d float64, in bool) []bool) {
 	bb := s.BoundingBox()
 	d := s.Evaluate(p)
 	vfReach(who)
